@@ -422,7 +422,7 @@ def _check_w07(S: Snapshot):
             herm = float(np.max(np.abs(a - a.conj().T))) if a.size else 0.0
             if herm > TOL_HERM:
                 S.problem("C07", "W07:hermiticity", f"{tag} |rho-rho^H| = {herm:.3g}")
-            elif a.shape[0] > 1600:
+            elif a.shape[0] > 2048:
                 pass  # positivity not evaluated on very large blocks (cost); see evidence assumptions
             else:
                 try:
